@@ -125,7 +125,7 @@ pub fn reference(scn: &Scenario) -> Ref {
         is_match: if short { &is_match } else { &never },
         stop_calls: None,
     };
-    for i in 0..n {
+    for i in scn.pre.min(n)..n {
         let mut x = src_elem(scn, i);
         work += 1;
         match scn.src {
